@@ -10,6 +10,7 @@ import QbeeModel.Model.Layout
 import QbeeModel.Model.ExprC
 import QbeeModel.Model.FloatInst
 import QbeeModel.Model.ExprSem
+import QbeeModel.Model.Fold
 /-
   Line-protocol driver for the executable models.  One request per line, one
   answer per line.  Unknown or malformed requests answer `bad-op`; the models
@@ -397,6 +398,24 @@ def handleRefEval (r : List String) : String :=
       encRes ref ++ " | " ++ viaCode
   | _ => "bad-op"
 
+def encFold : Fold.FoldRes → String
+  | .lit t n => s!"lit {tyTxt t} {n}"
+  | .unfolded => "unfolded"
+  | .host c => "host " ++ c
+
+def handleFold : List String → Option String
+  | ["b", op, t, a, b] => do
+      let op ← parseBinOp op; let t ← parseTy t; let a ← a.toInt?; let b ← b.toInt?
+      pure (encFold (Fold.foldInt op t a b))
+  | ["u", k, t, a] => do
+      let t ← parseTy t; let a ← a.toInt?
+      if k ≠ "neg" && k ≠ "not" then none else
+      pure (encFold (Fold.foldUnInt (k = "neg") t a))
+  | ["conv", d, a] => do
+      let d ← parseTy d; let a ← a.toInt?
+      pure (match Fold.phConvInt d a with | some n => s!"some {n}" | none => "none")
+  | _ => none
+
 def handle (toks : List String) : String :=
   match toks with
   | "print" :: r =>
@@ -485,6 +504,7 @@ def handle (toks : List String) : String :=
   | "cexpr" :: r => handleCExpr r
   | "arith" :: r => (handleArith r).getD "bad-op"
   | "refeval" :: r => handleRefEval r
+  | "fold" :: r => (handleFold r).getD "bad-op"
   | ["uscan", f] =>
     match decStr f with
     | some f => match Using.scanFmt f with
